@@ -48,7 +48,10 @@ def oracle(ctx, r, stats):
         ctx.violation("collect-at-positive-depth", f"{col_pos} collections ran while no_gc_depth > 0", rep)
     if col != sp - sp_pos:
         ctx.violation("forced-collection-count", f"{col} collections for {sp - sp_pos} safepoints at depth 0 (forced schedule)", rep)
-    foreign = cls not in (0, 1) or cls != e0[0] and cls != e1[0]
+    if cls == 2 and e0[0] != 2 and e1[0] != 2:
+        ctx.violation("exit-underflow", "ExitNoGc ran at depth 0 (InvalidBytecode: no_gc underflow) in compiled code", rep)
+        return
+    foreign = cls not in (0, 1, 2) or cls != e0[0] and cls != e1[0]
     # which variant (leaf functions inlined or not) the implementation followed
     cand = [e0] + ([e1] if r["opt"] >= 1 else [])
     match = [e for e in cand if not foreign and [cls, d1, sp, sp_pos] == e[0:4]]
